@@ -157,7 +157,8 @@ def run_terms(ctx):
         n = int(t.n_coefs)
         C = np.zeros((n, n))
         for kind in t.constraints:
-            if kind in (None, 'none'):
+            kind = termgen.con_name(kind)      # registry name, also for constraints given as callables
+            if kind == 'none':
                 continue
             C += dense(getattr(penalties, kind)(n, c)) * clam
         if np.count_nonzero(C) > 0:
@@ -211,7 +212,7 @@ def _fit_case(args):
     import numpy as np
     import pygam
     from pygam import LinearGAM, PoissonGAM, LogisticGAM, GammaGAM, ExpectileGAM, s, te
-    (seed, cls_name, kind, order, n_splines, lam, tensor, n) = args
+    (seed, cls_name, kind, order, n_splines, lam, tensor, n, variant) = args
     rng = np.random.default_rng(seed)
     x = np.sort(rng.uniform(0, 1, n))
     x2 = rng.uniform(0, 1, n)
@@ -230,10 +231,14 @@ def _fit_case(args):
         y = (rng.uniform(size=n) < 1 / (1 + np.exp(-eta))).astype(float)
     else:
         y = np.exp(0.3 * eta) * rng.gamma(5, 1 / 5.0, size=n)
+    # the same constraint given by its registry name or as the callable of pygam.penalties; the edge knots left to
+    # the data or given by the user, in either order (a pair of edge knots is a range, whichever end comes first)
+    con = getattr(pygam.penalties, kind) if variant in ('callable', 'callable+reversed-knots') else kind
+    ek = [float(x.max()), float(x.min())] if variant in ('reversed-knots', 'callable+reversed-knots') else None
     if tensor:
-        terms = te(0, 1, n_splines=[n_splines, 4], spline_order=[order, 1], constraints=[kind, None], lam=lam)
+        terms = te(s(0, n_splines=n_splines, spline_order=order, constraints=con, edge_knots=ek, lam=lam), s(1, n_splines=4, spline_order=1, lam=lam))
     else:
-        terms = s(0, n_splines=n_splines, spline_order=order, constraints=kind, lam=lam) + s(1, n_splines=5)
+        terms = s(0, n_splines=n_splines, spline_order=order, constraints=con, lam=lam, edge_knots=ek) + s(1, n_splines=5)
     cls = getattr(pygam, cls_name)
     kw = dict(expectile=0.7) if cls_name == 'ExpectileGAM' else {}
     gam = cls(terms, tol=1e-8, max_iter=500, **kw)
@@ -288,12 +293,14 @@ def run_fits(ctx):
         if tensor:
             n_splines = min(n_splines, 8)
         n = rng.choice([60, 150, 400])
-        cases.append((ctx.seed * 100003 + i, cls_name, kind, order, n_splines, lam, tensor, n))
+        variant = ['name', 'name', 'callable', 'name', 'reversed-knots', 'callable+reversed-knots'][(i // 2) % 6]
+        cases.append((ctx.seed * 100003 + i, cls_name, kind, order, n_splines, lam, tensor, n, variant))
     with mp.get_context('fork').Pool(min(16, len(cases))) as pool:
         results = pool.map(_fit_case, cases, chunksize=1)
     for r in results:
-        (seed, cls_name, kind, order, n_splines, lam, tensor, n) = r['args']
-        sig = dict(cls=cls_name, kind=kind, order=order, n_splines=n_splines, lam=lam, tensor=tensor, n=n)
+        (seed, cls_name, kind, order, n_splines, lam, tensor, n, variant) = r['args']
+        sig = dict(cls=cls_name, kind=kind, order=order, n_splines=n_splines, lam=lam, tensor=tensor, n=n, variant=variant)
+        ctx.count('constraint given as / edge knots', variant)
         ctx.count('fit status', r['status'] + ('' if r['status'] != 'ok' else ('/converged' if r['converged'] else '/not-converged')))
         ctx.count('fit class', cls_name)
         ctx.case(st, sig, nontrivial=True, sample=dict(sig, result={k: v for k, v in r.items() if k != 'args'}))
